@@ -22,11 +22,12 @@ theorem resolved_names_are_supplied (c : Cfg) (template : Bool) (ops : List Op) 
     (hl : lookup st.scopes name = some e) : Entry.Legit c name e :=
   lookup_legit (run_legit ops _ st (init_legit c template) h).scopes hl
 
-example : ∃ st e, check ⟨some [("p", ⟨"p", [⟨"F", .func⟩]⟩)], [], [⟨"g", .func, []⟩], false⟩ true
-      [.importNative "p" .default, .enter, .declare "x" .var, .useSelector "p" "F", .useIdent "g"] = .ok st
-    ∧ lookup st.scopes "p" = some e ∧ e.prov = .importer "p"
-    ∧ st.natives = [⟨.global, "g"⟩, ⟨.importer "p", "p.F"⟩] :=
-  ⟨_, _, rfl, rfl, rfl, by decide⟩
+example :
+    (match check ⟨some [("p", ⟨"p", [⟨"F", .func⟩]⟩)], [], [⟨"g", .func, []⟩], false⟩ true
+      [.importNative "p" .default, .enter, .declare "x" .var, .useSelector "p" "F", .useIdent "g"] with
+    | .ok st => (st.natives, (lookup st.scopes "p").map (·.prov))
+    | .error _ => ([], none))
+    = ([⟨.global, "g"⟩, ⟨.importer "p", "p.F"⟩], some (.importer "p")) := by decide
 
 /-- **C19, the native functions of a compiled artefact.** Every native function the emitter
 records (`Function.NativeFunctions`, the only operands of `OpCallNative` / `OpLoadFunc`) is a
